@@ -1,6 +1,8 @@
 (* TypingSound.v -- C05, the direction "ill-typed programs are never accepted", for whole expressions: every expression of the fragment
-   (literals, local variables, objects by id, this, property reads o.p, subscripts o[i], casts, unary, binary incl. && ||, ternary, in any nesting) that the model of the translator accepts has a typing
+   (literals, local variables, objects by id, this, property reads o.p, subscripts o[i], casts, unary, binary incl. && ||, ternary, list
+   expressions, method calls o.m(...), Math.max / Math.min, qsTr, console.*, assignments to variables / properties / list elements, in any nesting) that the model of the translator accepts has a typing
    derivation in the declarative system spec/Typing.v. *)
+From QV Require Import model.Sem proofs.SemProofs proofs.ScopeProofs proofs.FrameProofs.
 From QV Require Import model.Base model.Lang model.Types model.Tir model.Ceval model.Builder spec.Typing proofs.TypingProofs proofs.BuilderInv proofs.BuilderSafe.
 From Coq Require Import Arith Lia.
 Open Scope nat_scope.
@@ -128,13 +130,22 @@ Proof.
 Qed.
 
 (* ---------------------------------------------------------------- whole expressions *)
-Inductive Typed (E : cenv) (G : string -> option tkind) : expr -> tdesc -> Prop :=
+(* argument lists and array elements, declaratively *)
+Fixpoint spec_args (E : cenv) (tys : list tkind) (ds : list tdesc) : bool :=
+  match tys, ds with t :: tr, d :: dr => spec_assignable E t d && spec_args E tr dr | _, _ => true end.
+Fixpoint spec_elems (E : cenv) (t : tdesc) (rest : list tdesc) : option tdesc :=
+  match rest with [] => Some t | a :: r => match common E t a with Some t' => spec_elems E t' r | None => None end end.
+Definition spec_array_elem (E : cenv) (ds : list tdesc) : option tkind :=
+  match ds with [] => None | a :: r => match spec_elems E a r with Some t => concrete t | None => None end end.
+Definition unbound (E : cenv) (G : string -> option (tkind * decl_kind)) (n : string) : Prop := G n = None /\ ctx_get_ref E n = None.
+
+Inductive Typed (E : cenv) (G : string -> option (tkind * decl_kind)) : expr -> tdesc -> Prop :=
 | TyInt n : Typed E G (EInt n) DConstInteger
 | TyFloat b : Typed E G (EFloat b) (DConcrete T_DOUBLE)
 | TyStr s : Typed E G (EStr s) DConstString
 | TyBool b : Typed E G (EBool b) (DConcrete T_BOOL)
 | TyNull : Typed E G ENull DNullPointer
-| TyLocal x t : G x = Some t -> Typed E G (EIdent x) (DConcrete t)
+| TyLocal x t k : G x = Some (t, k) -> Typed E G (EIdent x) (DConcrete t)
 | TyUnary op u a da t d : uop_of op = Some u -> Typed E G a da -> spec_unary (uclass_of u) da = Some t -> concrete d = Some t -> Typed E G (EUnary op a) d
 | TyBinary op b l r dl dr t d : bop_of op = Some b -> binop_class b <> KLogical -> Typed E G l dl -> Typed E G r dr ->
     spec_binary E (opclass_of b) dl dr = Some t -> concrete d = Some t -> Typed E G (EBinary op l r) d
@@ -153,8 +164,30 @@ Inductive Typed (E : cenv) (G : string -> option tkind) : expr -> tdesc -> Prop 
 (* e as T: one of the documented casts *)
 | TyAs v path dv t d : Typed E G v dv -> annotated_type E path = Some t -> spec_castable E t (ecsd dv) = true -> concrete d = Some t -> Typed E G (EAs v path) d
 (* l[i] read as a value *)
-| TySubscript o ix dobj di e d : Typed E G o dobj -> Typed E G ix di -> spec_subscript dobj di = Some e -> concrete d = Some e -> Typed E G (ESubscript o ix) d.
+| TySubscript o ix dobj di e d : Typed E G o dobj -> Typed E G ix di -> spec_subscript dobj di = Some e -> concrete d = Some e -> Typed E G (ESubscript o ix) d
+(* assignments (their value is void): to a `let` variable, to a writable property (of an object, or of a gadget held in a variable), to an element of a list variable *)
+| TyAssignLocal x t r dr : G x = Some (t, DLet) -> Typed E G r dr -> spec_assignable E t (ecsd dr) = true -> Typed E G (EAssign (EIdent x) r) (DConcrete T_VOID)
+| TyAssignProp o p r dobj ty cls dc pi dr : Typed E G o dobj -> concrete dobj = Some ty -> class_of_type ty = Some cls -> get_property E cls p = Some (dc, pi) ->
+    pi_writable pi = true -> (tkind_is_pointer ty = true \/ exists x, o = EIdent x /\ G x <> None) ->
+    Typed E G r dr -> spec_assignable E (pi_type pi) (ecsd dr) = true -> Typed E G (EAssign (EMember o p) r) (DConcrete T_VOID)
+| TyAssignSub x t k ix di r dr e : G x = Some (t, k) -> Typed E G ix di -> spec_subscript (DConcrete t) di = Some e -> Typed E G r dr -> spec_assignable E e dr = true ->
+    Typed E G (EAssign (ESubscript (EIdent x) ix) r) (DConcrete T_VOID)
+(* list expressions: all elements have one common type *)
+| TyArrayNil : Typed E G (EArray []) DEmptyList
+| TyArray es ds c d : es <> [] -> Forall2 (Typed E G) es ds -> spec_array_elem E (map ecsd ds) = Some c -> concrete d = Some (TList c) -> Typed E G (EArray es) d
+(* calls: the first method of that name (in the class of o or an ancestor) whose parameter count fits and whose parameters accept the arguments *)
+| TyMethodCall o m args dobj ty cls dc ms das mi d : Typed E G o dobj -> concrete dobj = Some ty -> class_of_type ty = Some cls -> get_property E cls m = None ->
+    get_methods E cls m = Some (dc, ms) -> Forall2 (Typed E G) args das ->
+    find (fun mi => Nat.eqb (List.length (mi_args mi)) (List.length das) && spec_args E (mi_args mi) (map ecsd das)) ms = Some mi ->
+    concrete d = Some (mi_ret mi) -> Typed E G (ECall (EMember o m) args) d
+| TyMath n a b da db t d : n = "max"%string \/ n = "min"%string -> unbound E G "Math" -> Typed E G a da -> Typed E G b db ->
+    common_concrete E (ecsd da) (ecsd db) = Some t -> is_kind [T_BOOL; T_DOUBLE; T_INT; T_UINT; T_STRING] t = true -> concrete d = Some t ->
+    Typed E G (ECall (EMember (EIdent "Math") n) [a; b]) d
+| TyTr a d : unbound E G "qsTr" -> Typed E G a DConstString -> concrete d = Some T_STRING -> Typed E G (ECall (EIdent "qsTr") [a]) d
+| TyConsole lv args das : unbound E G "console" -> Forall2 (Typed E G) args das -> Typed E G (ECall (EMember (EIdent "console") lv) args) (DConcrete T_VOID).
 
+Definition is_unbound (E : cenv) (env : lenv) (n : string) : bool :=
+  match lenv_get env n, ctx_get_ref E n with None, None => true | _, _ => false end.
 Fixpoint frag (E : cenv) (env : lenv) (e : expr) : bool :=
   match e with
   | EInt _ | EFloat _ | EStr _ | EBool _ | ENull => true
@@ -166,12 +199,22 @@ Fixpoint frag (E : cenv) (env : lenv) (e : expr) : bool :=
   | EMember o _ => frag E env o
   | EAs v _ => frag E env v
   | ESubscript o ix => frag E env o && frag E env ix
+  | EArray es => forallb (frag E env) es
+  | EAssign (EIdent x) r => match lenv_get env x with Some _ => frag E env r | None => false end
+  | EAssign (EMember o _) r => frag E env o && frag E env r
+  | EAssign (ESubscript (EIdent x) ix) r => match lenv_get env x with Some _ => frag E env ix && frag E env r | None => false end
+  | ECall (EMember o m) args =>
+      (match o with
+       | EIdent n => if (String.eqb n "Math" || String.eqb n "console") && is_unbound E env n then true else frag E env o
+       | _ => frag E env o
+       end) && forallb (frag E env) args
+  | ECall (EIdent n) args => String.eqb n "qsTr" && is_unbound E env n && forallb (frag E env) args
   | _ => false
   end.
 
 (* the typing context: the declared types of the locals the environment names, read in the state the translation starts from *)
-Definition ctx_of (env : lenv) (s0 : bstate) (x : string) : option tkind :=
-  match lenv_get env x with Some (l, _) => nth_error (bs_locals s0) l | None => None end.
+Definition ctx_of (env : lenv) (s0 : bstate) (x : string) : option (tkind * decl_kind) :=
+  match lenv_get env x with Some (l, k) => option_map (fun t => (t, k)) (nth_error (bs_locals s0) l) | None => None end.
 
 Lemma Rel_local s0 s l : Rel s0 s -> l < List.length (bs_locals s0) -> nth_error (bs_locals s) l = nth_error (bs_locals s0) l.
 Proof. intros [[suf L] _ _ _] Hl. rewrite L. apply nth_error_app1. exact Hl. Qed.
@@ -261,11 +304,13 @@ Qed.
 
 (* what a fragment expression is translated to is never a bare namespace or type name *)
 Definition shape_ok (i : inter) : Prop := match i with IBuiltinNamespace _ | IType _ => False | _ => True end.
+Ltac fin H := repeat (first [ discriminate H | (unfold ret in H; inversion H; exact I) | minv H
+                            | match type of H with context [match ?x with _ => _ end] => destruct x end ]).
 Lemma frag_shape E env : forall e, frag E env e = true -> forall s i s', walk_expr E env e s = (V i, s') -> shape_ok i.
 Proof.
   induction e as [x| |n|fb|str|bb| |es| |o IHo p|o IHo ix IHix|f IHf args|l IHl r IHr|op a IHa|op l IHl r IHr|v IHv ty|c IHc a IHa b IHb];
-    cbn [frag]; try discriminate; intros Hf s i s' H; cbn [walk_expr] in H.
-  - unfold process_identifier in H. destruct (lenv_get env x) as [[l k]|]; [inversion H; exact I|].
+    intros Hf s i s' H; cbn [walk_expr] in H.
+  - cbn [frag] in Hf. unfold process_identifier in H. destruct (lenv_get env x) as [[l k]|]; [inversion H; exact I|].
     unfold ctx_get_ref in H. destruct (assoc x (ce_objects E)) as [c|]; [|discriminate Hf]. inversion H; exact I.
   - destruct (ce_this E) as [[c n]|]; inversion H; exact I.
   - minvn H a s1 E1. inversion H; exact I.
@@ -273,13 +318,18 @@ Proof.
   - inversion H; exact I.
   - inversion H; exact I.
   - inversion H; exact I.
-  - (* member *) minvn H io s1 E1. pose proof (IHo Hf _ _ _ E1) as Sh.
+  - (* array *) minvn H els s1 E1. minvn H a s2 E2. inversion H; exact I.
+  - discriminate Hf.
+  - (* member *) cbn [frag] in Hf. minvn H io s1 E1. pose proof (IHo Hf _ _ _ E1) as Sh.
     assert (Hp : forall it k st, process_item_property E it p k st = (V i, s') -> shape_ok i).
     { intros it k st Hq. unfold process_item_property in Hq. destruct (to_concrete_type (operand_tdesc it)); [|discriminate Hq].
       destruct (class_of_type t); [|discriminate Hq]. destruct (get_property E n p) as [[dc pi]|]; [inversion Hq; exact I|].
       destruct (get_methods E n p) as [[dc ms]|]; [inversion Hq; exact I|discriminate Hq]. }
     destruct io; try contradiction; try discriminate H; try (eapply Hp; exact H); minvn H it s2 E2; eapply Hp; exact H.
   - (* subscript *) minvn H io s1 E1. minvn H ok s2 E2. minvn H idx s3 E3. inversion H; exact I.
+  - (* call *) minvn H arguments s1 E1. minvn H fi s2 E2. destruct fi; try discriminate H; minvn H a9 s3 E3; inversion H; exact I.
+  - (* assignment *) minvn H rhs s1 E1. minvn H li s2 E2.
+    destruct li as [| l0 [|] | it pp [|[|]] | it ix0 [|] | | | |]; try discriminate H; minvn H a s3 E3; inversion H; exact I.
   - minvn H arg s1 E1. destruct (uop_of op); [|discriminate H]. minvn H r s2 E2. inversion H; exact I.
   - destruct (bop_of op) as [b|]; [|discriminate H]. destruct (binop_class b).
     1,2,3,5: (minvn H lhs s1 E1; minvn H rhs s2 E2; minvn H it s3 E3; inversion H; exact I).
@@ -302,134 +352,397 @@ Proof.
       repeat match type of H with context [if ?c then _ else _] => destruct c end; discriminate H.
 Qed.
 
+(* ---- helpers for calls, arrays, assignments ---- *)
+Lemma find_ext {A} (f g : A -> bool) l : (forall x, f x = g x) -> find f l = find g l.
+Proof. intros H. induction l as [|x r IH]; cbn; [reflexivity|]. rewrite H, IH. reflexivity. Qed.
+Lemma args_assignable_spec E : forall tys args, args_assignable E tys args = spec_args E tys (map operand_tdesc args).
+Proof. induction tys as [|t tr IH]; intros [|a ar]; cbn; try reflexivity. rewrite is_assignable_spec, IH. reflexivity. Qed.
+
+Lemma deduce_elems_spec E : forall rest t s t' s', deduce_elems E t rest s = (V t', s') -> spec_elems E t (map operand_tdesc rest) = Some t'.
+Proof.
+  induction rest as [|a r IH]; intros t s t' s' H; cbn [deduce_elems map spec_elems] in *.
+  - inversion H; reflexivity.
+  - pose proof (deduce_type_common E t (operand_tdesc a)) as Hc. destruct (deduce_type E t (operand_tdesc a)) as [t1|e].
+    + rewrite Hc. eapply IH. exact H.
+    + exfalso. destruct e; cbn in H; discriminate H.
+Qed.
+
+Lemma map_ecs_tdesc l : map operand_tdesc (map ensure_concrete_string l) = map ecsd (map operand_tdesc l).
+Proof. induction l as [|a r IH]; cbn; [reflexivity|]. rewrite ecs_tdesc', IH. reflexivity. Qed.
+
+(* an intermediate result that is a local variable comes from an identifier naming it *)
+Lemma ilocal_ident E env : forall o s l k s', walk_expr E env o s = (V (ILocal l k), s') -> exists x, o = EIdent x /\ lenv_get env x = Some (l, k) /\ s' = s.
+Proof.
+  intros o s l k s' H. destruct o; cbn [walk_expr] in H.
+  - unfold process_identifier in H. destruct (lenv_get env x) as [[l0 k0]|] eqn:El.
+    + inversion H; subst. exists x. auto.
+    + exfalso. destruct (ctx_get_ref E x) as [[n|e|c|c on pp|c on dc ms]|]; cbn [of_ref] in H; try discriminate H.
+      destruct (lookup_global_name x) as [i|] eqn:Eg; [|discriminate H]. unfold lookup_global_name in Eg.
+      repeat match type of Eg with context [if ?c then _ else _] => destruct c end; inversion Eg; subst; discriminate H.
+  - exfalso. destruct (ce_this E) as [[c n]|]; discriminate H.
+  - exfalso. minvn H a s1 E1; try discriminate H.
+  - discriminate H. - discriminate H. - discriminate H. - discriminate H.
+  - exfalso. minvn H els s1 E1. minvn H a s2 E2; try discriminate H.
+  - discriminate H.
+  - exfalso. minvn H io s1 E1.
+    assert (Hp : forall it k0 st, process_item_property E it p k0 st <> (V (ILocal l k), s')).
+    { intros it k0 st Hq. unfold process_item_property in Hq. destruct (to_concrete_type (operand_tdesc it)); [|discriminate Hq].
+      destruct (class_of_type t); [|discriminate Hq]. destruct (get_property E n p) as [[dc pi]|]; [discriminate Hq|].
+      destruct (get_methods E n p) as [[dc ms]|]; discriminate Hq. }
+    destruct io; try discriminate H; try (eapply Hp; exact H); try (minvn H it s2 E2; eapply Hp; exact H).
+    + unfold process_namespace_name in H. destruct k0; repeat match type of H with context [if ?c then _ else _] => destruct c end; discriminate H.
+    + unfold process_identifier in H. destruct (type_get_ref E n p) as [[n0|e|c|c on pp|c on dc ms]|]; cbn [of_ref] in H; discriminate H.
+  - exfalso. minvn H io s1 E1. minvn H ok s2 E2. minvn H idx s3 E3; try discriminate H.
+  - exfalso. minvn H arguments s1 E1. minvn H fi s2 E2. destruct fi; try discriminate H; minvn H a9 s3 E3; try discriminate H.
+  - exfalso. minvn H rhs s1 E1. minvn H li s2 E2.
+    destruct li as [| l0 [|] | it pp [|[|]] | it ix0 [|] | | | |]; try discriminate H; minvn H a9 s3 E3; try discriminate H.
+  - exfalso. minvn H arg s1 E1. destruct (uop_of op); [|discriminate H]. minvn H r s2 E2; try discriminate H.
+  - exfalso. destruct (bop_of op) as [b|]; [|discriminate H]. destruct (binop_class b).
+    1,2,3,5: (minvn H lhs s1 E1; minvn H rhs s2 E2; minvn H it s3 E3; try discriminate H).
+    minvn H lhs s1 E1. minvn H ll s2 E2. minvn H rhs s3 E3. minvn H rl s4 E4. minvn H u1 s5 E5. minvn H u2 s6 E6. minvn H it s7 E7; try discriminate H.
+  - exfalso. minvn H val0 s1 E1. minvn H t s2 E2. minvn H it s3 E3; try discriminate H.
+  - exfalso. minvn H cond s1 E1. minvn H cl s2 E2. minvn H conseq s3 E3. minvn H ql s4 E4. minvn H alt s5 E5. minvn H al s6 E6. minvn H u1 s7 E7. minvn H it s8 E8;
+    try discriminate H.
+Qed.
+
+(* o.p / o.m(): what the member access of walk_expr does with the intermediate result of o (shape_ok: not a namespace or type name) *)
+Lemma member_inv E env o p s i s2 io s1 : walk_expr E env o s = (V io, s1) -> shape_ok io -> walk_expr E env (EMember o p) s = (V i, s2) ->
+  exists obj k st, to_rvalue io s1 = (V obj, st) /\ process_item_property E obj p k st = (V i, s2) /\ (k = KLvalue -> exists l dk, io = ILocal l dk).
+Proof.
+  intros E1 Sh H. cbn [walk_expr] in H. unfold mbind at 1 in H. rewrite E1 in H.
+  destruct io; try contradiction; try discriminate H.
+  - exists a, KRvalue, s1. split; [reflexivity|]. split; [exact H|discriminate].
+  - minvn H it st E2. exists it, KLvalue, st. split; [exact E2|]. split; [exact H|]. intros _. eauto.
+  - minvn H it st E2. exists it, KRvalue, st. split; [exact E2|]. split; [exact H|discriminate].
+  - minvn H it st E2. exists it, KRvalue, st. split; [exact E2|]. split; [exact H|discriminate].
+Qed.
+
+Section Main.
+  Variables (E : cenv) (env : lenv) (s0 : bstate).
+  Hypothesis Hw : envwf (List.length (bs_locals s0)) env.
+  Definition Pt (e : expr) : Prop :=
+    frag E env e = true -> forall s a s', Rel s0 s -> walk_rvalue E env e s = (V a, s') -> Typed E (ctx_of env s0) e (operand_tdesc a).
+  (* the induction also carries the statement for the object of a member access and the parts of a subscript (needed by o.m(...) and by assignments) *)
+  Definition P2 (e : expr) : Prop := Pt e /\ match e with EMember o _ => Pt o | ESubscript o i => Pt o /\ Pt i | _ => True end.
+
+  Lemma local_ctx x l k s t : lenv_get env x = Some (l, k) -> Rel s0 s -> nth_error (bs_locals s) l = Some t -> ctx_of env s0 x = Some (t, k).
+  Proof. intros El HR En. unfold ctx_of. rewrite El. rewrite <- (Rel_local s0 s l HR (Hw _ _ _ El)), En. reflexivity. Qed.
+
+  Lemma unbound_ctx n : is_unbound E env n = true -> unbound E (ctx_of env s0) n /\ lenv_get env n = None.
+  Proof.
+    unfold is_unbound, unbound, ctx_of. destruct (lenv_get env n) as [[l k]|]; [discriminate|]. destruct (ctx_get_ref E n); [discriminate|]. auto.
+  Qed.
+
+  Lemma args_typed : forall args, Forall Pt args -> forallb (frag E env) args = true -> forall s ops s1, Rel s0 s ->
+    (fix go (l : list expr) : M (list operand) :=
+       match l with [] => ret [] | x :: r => let! a := (let! i := walk_expr E env x in to_rvalue i) in let! rest := go r in ret (a :: rest) end) args s = (V ops, s1) ->
+    Forall2 (Typed E (ctx_of env s0)) args (map operand_tdesc ops) /\ Rel s0 s1.
+  Proof.
+    induction 1 as [|x r Hx Hr IH]; intros Hf s ops s1 HR H.
+    - inversion H; subst. split; [constructor|exact HR].
+    - cbn [forallb] in Hf. apply andb_prop in Hf. destruct Hf as [Fx Fr].
+      minvn H a s2 E1. change (walk_rvalue E env x s = (V a, s2)) in E1. minvn H rest s3 E2. unfold ret in H. inversion H; subst.
+      assert (HR2 : Rel s0 s2) by (eapply Rel_trans; [exact HR|eapply Inv_rel; [apply Inv_walk_rvalue|exact E1]]).
+      destruct (IH Fr _ _ _ HR2 E2) as [T2 HR3]. split; [|exact HR3]. cbn [map]. constructor; [|exact T2]. exact (Hx Fx _ _ _ HR E1).
+  Qed.
+
+  Theorem typed_all : forall e, P2 e.
+  Proof.
+    apply expr_ind'.
+    - (* identifier: a local variable, or an object of the document *)
+      intros x. split; [|exact I]. intros Hf s res s' HR H. cbn [frag] in Hf. unfold walk_rvalue in H; cbn [walk_expr] in H.
+      unfold process_identifier in H. destruct (lenv_get env x) as [[l k]|] eqn:El.
+      + unfold mbind, ret in H. cbn [to_rvalue] in H. unfold visit_local_ref in H.
+        destruct (nth_error (bs_locals s) l) as [t|] eqn:En; [|discriminate]. inversion H; subst. cbn [operand_tdesc].
+        apply (TyLocal E _ x t k). eapply local_ctx; eauto.
+      + unfold ctx_get_ref in H. destruct (assoc x (ce_objects E)) as [c|] eqn:Eo; [|discriminate Hf].
+        unfold of_ref, mbind, ret in H. cbn [to_rvalue] in H. unfold ret in H. inversion H; subst. cbn [operand_tdesc].
+        apply TyObject; [unfold ctx_of; rewrite El; reflexivity|exact Eo].
+    - (* this *)
+      split; [|exact I]. intros Hf s res s' HR H. unfold walk_rvalue in H; cbn [walk_expr] in H.
+      destruct (ce_this E) as [[c n]|] eqn:Et; [|discriminate H]. unfold mbind, ret in H. cbn [to_rvalue] in H. unfold ret in H. inversion H; subst.
+      cbn [operand_tdesc]. eapply TyThis. exact Et.
+    - (* integer *)
+      intros n. split; [|exact I]. intros Hf s res s' HR H. unfold walk_rvalue in H; cbn [walk_expr] in H.
+      unfold visit_integer, mbind, ret, fail in H. destruct (Z.of_N n <=? I64_MAX)%Z; cbn [to_rvalue] in H; [|discriminate].
+      unfold ret in H. inversion H; subst. constructor.
+    - intros b. split; [|exact I]. intros Hf s res s' HR H. unfold walk_rvalue in H; cbn [walk_expr] in H. unfold mbind, ret in H. cbn [to_rvalue] in H. unfold ret in H. inversion H; subst. constructor.
+    - intros b. split; [|exact I]. intros Hf s res s' HR H. unfold walk_rvalue in H; cbn [walk_expr] in H. unfold mbind, ret in H. cbn [to_rvalue] in H. unfold ret in H. inversion H; subst. constructor.
+    - intros b. split; [|exact I]. intros Hf s res s' HR H. unfold walk_rvalue in H; cbn [walk_expr] in H. unfold mbind, ret in H. cbn [to_rvalue] in H. unfold ret in H. inversion H; subst. constructor.
+    - split; [|exact I]. intros Hf s res s' HR H. unfold walk_rvalue in H; cbn [walk_expr] in H. unfold mbind, ret in H. cbn [to_rvalue] in H. unfold ret in H. inversion H; subst. constructor.
+    - (* array *)
+      intros es IHes. split; [|exact I]. intros Hf s res s' HR H. cbn [frag] in Hf. unfold walk_rvalue in H; cbn [walk_expr] in H.
+      assert (IHes' : Forall Pt es) by (eapply Forall_impl; [|exact IHes]; intros x Hx; exact (proj1 Hx)).
+      minvn H i s3 E0. minvn E0 els s1 E1. destruct (args_typed es IHes' Hf _ _ _ HR E1) as [Tes HR1].
+      minvn E0 a s2 E2. unfold ret in E0. inversion E0; subst. cbn [to_rvalue] in H. unfold ret in H. inversion H; subst.
+      unfold visit_array in E2. cbv zeta in E2. destruct els as [|e1 er].
+      + cbn [map] in E2. unfold ret in E2. inversion E2; subst. inversion Tes; subst. cbn. apply TyArrayNil.
+      + cbn [map] in E2. minvn E2 elem_t s4 E3. minvn E2 c s5 E4.
+        pose proof (deduce_elems_spec _ _ _ _ _ _ E3) as Hs. rewrite map_ecs_tdesc, ecs_tdesc' in Hs.
+        pose proof (m_to_concrete_spec elem_t s4) as Hc. unfold succeeds in Hc. rewrite E4 in Hc. cbn [fst] in Hc.
+        destruct es as [|x0 xr]; [inversion Tes|].
+        eapply TyArray; [discriminate|exact Tes| |eapply emit_result_desc; exact E2].
+        cbn [map spec_array_elem]. rewrite Hs. symmetry. exact Hc.
+    - (* function *) split; [|exact I]. intros Hf. discriminate Hf.
+    - (* member: o.p *)
+      intros o p [IHo _]. split; [|exact IHo]. intros Hf s res s' HR H. cbn [frag] in Hf. unfold walk_rvalue in H.
+      minvn H i s2 E0. pose proof E0 as E0'. cbn [walk_expr] in E0'. minvn E0' io s1 E1. clear E0'.
+      pose proof (frag_shape E env o Hf _ _ _ E1) as Sh.
+      destruct (member_inv E env o p s i s2 io s1 E1 Sh E0) as (obj & k & st & Eobj & Ep & _).
+      assert (Eo : walk_rvalue E env o s = (V obj, st)) by (unfold walk_rvalue, mbind; rewrite E1; exact Eobj).
+      pose proof (IHo Hf _ _ _ HR Eo) as To.
+      unfold process_item_property in Ep. pose proof (to_concrete_concrete (operand_tdesc obj)) as Hc.
+      destruct (to_concrete_type (operand_tdesc obj)) as [ty|]; [|discriminate Ep].
+      destruct (class_of_type ty) as [cls|] eqn:Ec; [|discriminate Ep].
+      destruct (get_property E cls p) as [[dc pi]|] eqn:Eg.
+      + unfold ret in Ep. inversion Ep; subst. cbn [to_rvalue] in H. unfold visit_object_property in H. cbn [pr_info] in H.
+        destruct (pi_readable pi) eqn:Er; cbn [negb] in H; [|discriminate H].
+        eapply TyMember; eauto. eapply emit_result_desc. exact H.
+      + destruct (get_methods E cls p) as [[dc ms]|]; [|discriminate Ep]. unfold ret in Ep. inversion Ep; subst. discriminate H.
+    - (* subscript: o[ix] *)
+      intros o ix [IHo _] [IHix _]. split; [|split; assumption]. intros Hf s res s' HR H. cbn [frag] in Hf. unfold walk_rvalue in H; cbn [walk_expr] in H.
+      apply andb_prop in Hf. destruct Hf as [Fo Fi].
+      minvn H i s4 E0. minvn E0 io s1 E1. pose proof (frag_shape E env o Fo _ _ _ E1) as Sh.
+      minvn E0 ok s2 E2. minvn E0 idx s3 E3. change (walk_rvalue E env ix s2 = (V idx, s3)) in E3.
+      assert (Hobj : to_rvalue io s1 = (V (fst ok), s2)).
+      { destruct io; try contradiction; try discriminate E2.
+        - unfold ret in E2. inversion E2; reflexivity.
+        - minvn E2 it st E4. unfold ret in E2. inversion E2; subst. exact E4.
+        - minvn E2 it st E4. unfold ret in E2. inversion E2; subst. exact E4.
+        - minvn E2 it st E4. unfold ret in E2. inversion E2; subst. exact E4. }
+      assert (Eo : walk_rvalue E env o s = (V (fst ok), s2)) by (unfold walk_rvalue, mbind; rewrite E1; exact Hobj).
+      pose proof (IHo Fo _ _ _ HR Eo) as To.
+      assert (HR2 : Rel s0 s2) by (eapply Rel_trans; [exact HR|eapply Inv_rel; [apply Inv_walk_rvalue|exact Eo]]).
+      pose proof (IHix Fi _ _ _ HR2 E3) as Ti.
+      unfold ret in E0. inversion E0; subst. cbn [to_rvalue] in H. unfold visit_object_subscript in H. minvn H elem s5 E5.
+      pose proof (subscript_check_spec (fst ok) idx s4) as Hs. unfold succeeds in Hs. rewrite E5 in Hs. cbn [fst] in Hs.
+      eapply TySubscript; [exact To|exact Ti|symmetry; exact Hs|]. eapply emit_result_desc. exact H.
+    - (* call *)
+      intros f args IHf IHargs. split; [|exact I]. intros Hf s res s' HR H.
+      assert (IHargs' : Forall Pt args) by (eapply Forall_impl; [|exact IHargs]; intros x Hx; exact (proj1 Hx)).
+      unfold walk_rvalue in H; cbn [walk_expr] in H.
+      minvn H i s9 E0. minvn E0 arguments s1 E1. minvn E0 fi s2 E2.
+      destruct f as [n| | | | | | | | |o m| | | | | | |]; cbn [frag] in Hf; try discriminate Hf.
+      + (* qsTr("...") *)
+        apply andb_prop in Hf. destruct Hf as [Hf Fa]. apply andb_prop in Hf. destruct Hf as [Hn Hu]. apply String.eqb_eq in Hn. subst n.
+        destruct (unbound_ctx _ Hu) as [Ub El]. destruct (args_typed args IHargs' Fa _ _ _ HR E1) as [Targs HR1].
+        cbn [walk_expr] in E2. unfold process_identifier in E2. rewrite El in E2. destruct Ub as [_ Ug]. rewrite Ug in E2.
+        change (lookup_global_name "qsTr") with (Some (IBuiltinFunction BfTr)) in E2. unfold ret in E2. inversion E2; subst.
+        minvn E0 a s3 E3. unfold ret in E0. inversion E0; subst. cbn [to_rvalue] in H. unfold ret in H. inversion H; subst.
+        cbn [visit_builtin_call] in E3. destruct arguments as [|x [|y r]]; try discriminate E3.
+        destruct (operand_tdesc x) eqn:Ex; try discriminate E3.
+        inversion Targs as [|e1 d1 er dr T1 Tr Ea Ed]; subst. inversion Tr; subst. cbn [map] in *. rewrite Ex in T1.
+        eapply TyTr; [split; [unfold ctx_of; rewrite El; reflexivity|exact Ug]|exact T1|eapply emit_result_desc; exact E3].
+      + apply andb_prop in Hf. destruct Hf as [Ho Fa]. destruct (args_typed args IHargs' Fa _ _ _ HR E1) as [Targs HR1].
+        destruct IHf as [_ IHo].
+        assert (Hns : (exists n, o = EIdent n /\ (n = "Math"%string \/ n = "console"%string) /\ is_unbound E env n = true) \/ frag E env o = true).
+        { destruct o as [n| | | | | | | | | | | | | | | |]; try (right; exact Ho).
+          destruct ((String.eqb n "Math" || String.eqb n "console") && is_unbound E env n) eqn:Eq; [|right; exact Ho].
+          apply andb_prop in Eq. destruct Eq as [Eq Eu]. left. exists n. split; [reflexivity|]. split; [|exact Eu].
+          apply orb_prop in Eq. destruct Eq as [Eq|Eq]; apply String.eqb_eq in Eq; auto. }
+        destruct Hns as [(n & -> & Hn & Hu)|Fo].
+        * (* Math.max / Math.min / console.* *)
+          destruct (unbound_ctx _ Hu) as [Ub El]. pose proof Ub as [_ Ug].
+          cbn [walk_expr] in E2. unfold process_identifier in E2. rewrite El, Ug in E2. unfold mbind at 1 in E2.
+          destruct Hn as [-> | ->].
+          -- change (lookup_global_name "Math") with (Some (IBuiltinNamespace NsMath)) in E2. unfold ret at 1 in E2.
+             unfold process_namespace_name in E2.
+             assert (Hm : (m = "max"%string /\ fi = IBuiltinFunction BfMax \/ m = "min"%string /\ fi = IBuiltinFunction BfMin) /\ s2 = s1).
+             { destruct (String.eqb m "max") eqn:E3; [apply String.eqb_eq in E3; inversion E2; auto|].
+               destruct (String.eqb m "min") eqn:E4; [apply String.eqb_eq in E4; inversion E2; auto|discriminate E2]. }
+             destruct Hm as [Hm ->].
+             assert (Hb : exists bf a, (bf = BfMax \/ bf = BfMin) /\ fi = IBuiltinFunction bf /\ visit_builtin_call E bf arguments s1 = (V a, s9) /\ i = IItem a).
+             { destruct Hm as [[_ ->]|[_ ->]]; minvn E0 a s3 E3; unfold ret in E0; inversion E0; subst; eauto 10. }
+             destruct Hb as (bf & a & Hbf & -> & E3 & ->). cbn [to_rvalue] in H. unfold ret in H. inversion H; subst.
+             assert (E3' : (match map ensure_concrete_string arguments with
+                            | [a; b] => let! ty := m_deduce_concrete E (operand_tdesc a) (operand_tdesc b) in
+                                        if tkind_eqb ty T_BOOL || tkind_eqb ty T_DOUBLE || tkind_eqb ty T_INT || tkind_eqb ty T_UINT || tkind_eqb ty T_STRING
+                                        then emit_result ty (RBuiltin bf [a; b]) else fail XUnsupportedType
+                            | _ => fail XInvalidArgument end) s1 = (V res, s')) by (destruct Hbf as [-> | ->]; exact E3).
+             destruct arguments as [|x [|y [|z r]]]; try discriminate E3'. cbn [map] in E3'.
+             minvn E3' ty s3 E4. pose proof (m_deduce_concrete_spec E (operand_tdesc (ensure_concrete_string x)) (operand_tdesc (ensure_concrete_string y)) s1) as Hs.
+             unfold succeeds in Hs. rewrite E4 in Hs. cbn [fst] in Hs. rewrite !ecs_tdesc' in Hs.
+             destruct (tkind_eqb ty T_BOOL || tkind_eqb ty T_DOUBLE || tkind_eqb ty T_INT || tkind_eqb ty T_UINT || tkind_eqb ty T_STRING) eqn:Ek; [|discriminate E3'].
+             inversion Targs as [|e1 d1 er dr T1 Tr Ea Ed]; subst. inversion Tr as [|e2 d2 er2 dr2 T2 Tr2 Ea2 Ed2]; subst. inversion Tr2; subst.
+             eapply TyMath; [destruct Hm as [[-> _]|[-> _]]; auto|exact Ub|exact T1|exact T2|symmetry; exact Hs| |eapply emit_result_desc; exact E3'].
+             unfold is_kind. cbn [existsb]. rewrite orb_false_r. rewrite <- Ek. rewrite !orb_assoc. reflexivity.
+          -- change (lookup_global_name "console") with (Some (IBuiltinNamespace NsConsole)) in E2. unfold ret at 1 in E2.
+             unfold process_namespace_name in E2.
+             assert (Hc : exists lv, fi = IBuiltinFunction (BfConsole lv) /\ s2 = s1).
+             { repeat match type of E2 with context [if ?c then _ else _] => destruct c end; try discriminate E2; inversion E2; eauto. }
+             destruct Hc as (lv & -> & ->). minvn E0 a s3 E3. unfold ret in E0. inversion E0; subst. cbn [to_rvalue] in H. unfold ret in H. inversion H; subst.
+             cbn [visit_builtin_call] in E3.
+             assert (Hres : operand_tdesc res = DConcrete T_VOID).
+             { unfold emit_result in E3. unfold mbind at 1 in E3. unfold alloca in E3. change (tkind_eqb T_VOID T_VOID) with true in E3. cbn iota in E3.
+               minvn E3 u s5 E5. unfold ret in E3. inversion E3; subst. reflexivity. }
+             rewrite Hres. eapply TyConsole; [exact Ub|exact Targs].
+        * (* o.m(args) *)
+          pose proof E2 as E2'. cbn [walk_expr] in E2'. minvn E2' io s1' E3. clear E2'.
+          pose proof (frag_shape E env o Fo _ _ _ E3) as Sh.
+          destruct (member_inv E env o m s1 fi s2 io s1' E3 Sh E2) as (obj & k & st & Eobj & Ep & _).
+          assert (Eo : walk_rvalue E env o s1 = (V obj, st)) by (unfold walk_rvalue, mbind; rewrite E3; exact Eobj).
+          pose proof (IHo Fo _ _ _ HR1 Eo) as To.
+          unfold process_item_property in Ep. pose proof (to_concrete_concrete (operand_tdesc obj)) as Hc.
+          destruct (to_concrete_type (operand_tdesc obj)) as [ty|]; [|discriminate Ep].
+          destruct (class_of_type ty) as [cls|] eqn:Ec; [|discriminate Ep].
+          destruct (get_property E cls m) as [[dc pi]|] eqn:Eg; [unfold ret in Ep; inversion Ep; subst; discriminate E0|].
+          destruct (get_methods E cls m) as [[dc ms]|] eqn:Em; [|discriminate Ep]. unfold ret in Ep. inversion Ep; subst.
+          minvn E0 a s3 E4. unfold ret in E0. inversion E0; subst. cbn [to_rvalue] in H. unfold ret in H. inversion H; subst.
+          unfold visit_object_method_call in E4. cbv zeta in E4.
+          match type of E4 with context [find ?f ms] => destruct (find f ms) as [mi|] eqn:Ef end; [|discriminate E4].
+          eapply TyMethodCall; [exact To|exact Hc|exact Ec|exact Eg|exact Em|exact Targs| |eapply emit_result_desc; exact E4].
+          rewrite <- Ef. apply find_ext. intros mi0. rewrite !map_length, args_assignable_spec, map_ecs_tdesc. reflexivity.
+    - (* assignment *)
+      intros l r IHl [IHr _]. split; [|exact I]. intros Hf s res s' HR H.
+      destruct l as [x| | | | | | | | |o p|o ix| | | | | |]; cbn [frag] in Hf; try discriminate Hf.
+      + (* x = r *)
+        destruct (lenv_get env x) as [[lo k]|] eqn:El; [|discriminate Hf].
+        unfold walk_rvalue in H; cbn [walk_expr] in H.
+        minvn H i s9 E0. minvn E0 rhs s1 E1. change (walk_rvalue E env r s = (V rhs, s1)) in E1.
+        pose proof (IHr Hf _ _ _ HR E1) as Tr.
+        assert (HR1 : Rel s0 s1) by (eapply Rel_trans; [exact HR|eapply Inv_rel; [apply Inv_walk_rvalue|exact E1]]).
+        unfold process_identifier in E0. rewrite El in E0. unfold mbind at 1 in E0. unfold ret at 1 in E0.
+        destruct k; [|discriminate E0].
+        minvn E0 a s3 E3. unfold ret in E0. inversion E0; subst. cbn [to_rvalue] in H. unfold ret in H. inversion H; subst.
+        unfold visit_local_assignment in E3. minvn E3 lov s4 E4. unfold visit_local_ref in E4.
+        destruct (nth_error (bs_locals s1) lo) as [t|] eqn:En; [|discriminate E4]. inversion E4; subst. cbv zeta in E3.
+        rewrite ecs_tdesc', is_assignable_spec in E3.
+        destruct (spec_assignable E t (ecsd (operand_tdesc rhs))) eqn:Ea; [|discriminate E3].
+        minvn E3 u s5 E5. unfold ret in E3. inversion E3; subst. cbn [operand_tdesc].
+        eapply TyAssignLocal; [eapply local_ctx; eauto|exact Tr|exact Ea].
+      + (* o.p = r *)
+        destruct IHl as [_ IHo]. apply andb_prop in Hf. destruct Hf as [Fo Fr].
+        unfold walk_rvalue in H. cbn [walk_expr] in H. minvn H i s9 E0. minvn E0 rhs s1 E1. change (walk_rvalue E env r s = (V rhs, s1)) in E1.
+        pose proof (IHr Fr _ _ _ HR E1) as Tr.
+        assert (HR1 : Rel s0 s1) by (eapply Rel_trans; [exact HR|eapply Inv_rel; [apply Inv_walk_rvalue|exact E1]]).
+        minvn E0 li s2 E2. change (walk_expr E env (EMember o p) s1 = (V li, s2)) in E2.
+        pose proof E2 as E2'. cbn [walk_expr] in E2'. minvn E2' io s1' E3. clear E2'.
+        pose proof (frag_shape E env o Fo _ _ _ E3) as Sh.
+        destruct (member_inv E env o p s1 li s2 io s1' E3 Sh E2) as (obj & k & st & Eobj & Ep & Hk).
+        assert (Eo : walk_rvalue E env o s1 = (V obj, st)) by (unfold walk_rvalue, mbind; rewrite E3; exact Eobj).
+        pose proof (IHo Fo _ _ _ HR1 Eo) as To.
+        unfold process_item_property in Ep. pose proof (to_concrete_concrete (operand_tdesc obj)) as Hc.
+        destruct (to_concrete_type (operand_tdesc obj)) as [ty|]; [|discriminate Ep].
+        destruct (class_of_type ty) as [cls|] eqn:Ec; [|discriminate Ep].
+        destruct (get_property E cls p) as [[dc pi]|] eqn:Eg.
+        2:{ destruct (get_methods E cls p) as [[dc ms]|]; [|discriminate Ep]. unfold ret in Ep. inversion Ep; subst. discriminate E0. }
+        unfold ret in Ep. inversion Ep; subst.
+        assert (Hlv : tkind_is_pointer ty = true \/ exists x, o = EIdent x /\ ctx_of env s0 x <> None).
+        { destruct (tkind_is_pointer ty) eqn:Etp; [left; reflexivity|right]. destruct k; [|discriminate E0].
+          destruct (Hk eq_refl) as (l0 & dk & ->). destruct (ilocal_ident E env o s1 l0 dk s1' E3) as (x & -> & El & _).
+          exists x. split; [reflexivity|]. cbn [to_rvalue] in Eobj. unfold visit_local_ref in Eobj.
+          destruct (nth_error (bs_locals s1') l0) as [t|] eqn:En; [|discriminate Eobj].
+          assert (s1' = s1) by (cbn [walk_expr] in E3; unfold process_identifier in E3; rewrite El in E3; inversion E3; reflexivity). subst s1'.
+          rewrite (local_ctx x l0 dk s1 t El HR1 En). discriminate. }
+        assert (Hpa : visit_object_property_assignment E obj {| pr_class := dc; pr_info := pi |} rhs s2 = (V (match res with _ => res end), s') /\ res = OVoid \/ False -> True) by auto.
+        clear Hpa.
+        assert (Hgo : exists a, visit_object_property_assignment E obj {| pr_class := dc; pr_info := pi |} rhs s2 = (V a, s9) /\ i = IItem a).
+        { destruct (tkind_is_pointer ty); [|destruct k; [|discriminate E0]]; minvn E0 a s3 E4; unfold ret in E0; inversion E0; subst; eauto. }
+        destruct Hgo as (a & E4 & ->). cbn [to_rvalue] in H. unfold ret in H. inversion H; subst.
+        unfold visit_object_property_assignment in E4. cbn [pr_info] in E4.
+        destruct (pi_writable pi) eqn:Ewr; cbn [negb] in E4; [|discriminate E4]. cbv zeta in E4.
+        rewrite ecs_tdesc', is_assignable_spec in E4.
+        destruct (spec_assignable E (pi_type pi) (ecsd (operand_tdesc rhs))) eqn:Ea; [|discriminate E4].
+        assert (Hres : operand_tdesc res = DConcrete T_VOID).
+        { unfold emit_result in E4. unfold mbind at 1 in E4. unfold alloca in E4. change (tkind_eqb T_VOID T_VOID) with true in E4. cbn iota in E4.
+          minvn E4 u s5 E5. unfold ret in E4. inversion E4; subst. reflexivity. }
+        rewrite Hres. eapply TyAssignProp; eauto.
+      + (* x[ix] = r *)
+        destruct o as [x| | | | | | | | | | | | | | | |]; try discriminate Hf.
+        destruct IHl as [_ [_ IHix]].
+        destruct (lenv_get env x) as [[lo k]|] eqn:El; [|discriminate Hf]. apply andb_prop in Hf. destruct Hf as [Fi Fr].
+        unfold walk_rvalue in H. cbn [walk_expr] in H. minvn H i s9 E0. minvn E0 rhs s1 E1. change (walk_rvalue E env r s = (V rhs, s1)) in E1.
+        pose proof (IHr Fr _ _ _ HR E1) as Tr.
+        assert (HR1 : Rel s0 s1) by (eapply Rel_trans; [exact HR|eapply Inv_rel; [apply Inv_walk_rvalue|exact E1]]).
+        minvn E0 li s2 E2. unfold process_identifier in E2. rewrite El in E2. unfold mbind at 1 in E2. unfold ret at 1 in E2.
+        minvn E2 ok s3 E3. minvn E3 it s4 E4. unfold visit_local_ref in E4.
+        destruct (nth_error (bs_locals s1) lo) as [t|] eqn:En; [|discriminate E4]. inversion E4; subst. unfold ret in E3. inversion E3; subst.
+        minvn E2 idx s5 E5. match type of E5 with _ ?st = _ => change (walk_rvalue E env ix st = (V idx, s5)) in E5 end.
+        pose proof (IHix Fi _ _ _ HR1 E5) as Ti.
+        unfold ret in E2. inversion E2; subst. cbn [fst snd] in E0.
+        minvn E0 a s6 E6. unfold ret in E0. inversion E0; subst. cbn [to_rvalue] in H. unfold ret in H. inversion H; subst.
+        unfold visit_object_subscript_assignment in E6. minvn E6 elem s7 E7.
+        match type of E7 with check_object_subscript_type ?a ?b ?st = _ => pose proof (subscript_check_spec a b st) as Hs end.
+        unfold succeeds in Hs. rewrite E7 in Hs. cbn [fst operand_tdesc] in Hs.
+        rewrite is_assignable_spec in E6. destruct (spec_assignable E elem (operand_tdesc rhs)) eqn:Ea; [|discriminate E6].
+        minvn E6 u s8 E8. unfold ret in E6. inversion E6; subst. cbn [operand_tdesc].
+        eapply TyAssignSub; [eapply local_ctx; eauto|exact Ti|symmetry; exact Hs|exact Tr|exact Ea].
+    - (* unary *)
+      intros op a [IHa _]. split; [|exact I]. intros Hf s res s' HR H. cbn [frag] in Hf. unfold walk_rvalue in H; cbn [walk_expr] in H.
+      minvn H it s2 E0. minvn E0 arg s1 E1. change (walk_rvalue E env a s = (V arg, s1)) in E1.
+      pose proof (IHa Hf _ _ _ HR E1) as Ta.
+      destruct (uop_of op) as [u|] eqn:Eu; [|discriminate E0].
+      minvn E0 r s3 E2. unfold ret in E0. inversion E0; subst. cbn [to_rvalue] in H. unfold ret in H. inversion H; subst.
+      destruct (visit_unary_sound _ _ _ _ _ E2) as [t [H1 H2]]. eapply TyUnary; eauto.
+    - (* binary *)
+      intros op l r [IHl _] [IHr _]. split; [|exact I]. intros Hf s res s' HR H. cbn [frag] in Hf. unfold walk_rvalue in H; cbn [walk_expr] in H.
+      apply andb_prop in Hf. destruct Hf as [Fl Fr].
+      destruct (bop_of op) as [b|] eqn:Eb; [|discriminate H].
+      assert (Hnl : binop_class b <> KLogical ->
+                    mbind (mbind (walk_rvalue E env l) (fun lhs => mbind (walk_rvalue E env r) (fun rhs => mbind (visit_binary E b lhs rhs) (fun it => ret (IItem it))))) to_rvalue s = (V res, s') ->
+                    Typed E (ctx_of env s0) (EBinary op l r) (operand_tdesc res)).
+      { intros Hk H'. minvn H' it s4 E0. minvn E0 lhs s1 E1. minvn E0 rhs s2 E2. minvn E0 r3 s3 E3.
+        unfold ret in E0. inversion E0; subst. cbn [to_rvalue] in H'. unfold ret in H'. inversion H'; subst.
+        pose proof (IHl Fl _ _ _ HR E1) as Tl.
+        assert (HR1 : Rel s0 s1) by (eapply Rel_trans; [exact HR|eapply Inv_rel; [apply Inv_walk_rvalue|exact E1]]).
+        pose proof (IHr Fr _ _ _ HR1 E2) as Tr.
+        destruct (visit_binary_sound _ _ _ _ _ _ _ Hk E3) as [[t [H1 H2]]|[-> ->]].
+        - eapply TyBinary; eauto.
+        - eapply TyNullNull; eauto. }
+      destruct (binop_class b) eqn:Ek; try (apply Hnl; [discriminate|exact H]).
+      minvn H it s9 E0. minvn E0 lhs s1 E1. minvn E0 ll s2 E2. minvn E0 rhs s3 E3. minvn E0 rl s4 E4.
+      minvn E0 u1 s5 E5. minvn E0 u2 s6 E6. minvn E0 r3 s7 E7.
+      unfold ret in E0. inversion E0; subst. cbn [to_rvalue] in H. unfold ret in H. inversion H; subst.
+      change (walk_rvalue E env l s = (V lhs, s1)) in E1. change (walk_rvalue E env r s2 = (V rhs, s3)) in E3.
+      pose proof (IHl Fl _ _ _ HR E1) as Tl.
+      assert (HR2 : Rel s0 s2).
+      { eapply Rel_trans; [exact HR|]. eapply Rel_trans; [eapply Inv_rel; [apply Inv_walk_rvalue|exact E1]|eapply Inv_rel; [apply Inv_mark_branch_point|exact E2]]. }
+      pose proof (IHr Fr _ _ _ HR2 E3) as Tr.
+      destruct (check_cond_bool _ _ _ _ E5) as [Bl _]. destruct (check_cond_bool _ _ _ _ E6) as [Br _].
+      rewrite Bl in Tl. rewrite Br in Tr.
+      destruct (visit_binary_logical_sound E _ _ _ _ _ _ _ _ E7) as [_ Hc].
+      assert (Hd : operand_tdesc res = DConcrete T_BOOL).
+      { destruct (operand_tdesc res) eqn:Ed; cbn in Hc; try discriminate. inversion Hc. reflexivity. }
+      rewrite Hd. eapply TyLogical; eauto.
+    - (* cast: v as T *)
+      intros v ty [IHv _]. split; [|exact I]. intros Hf s res s' HR H. cbn [frag] in Hf. unfold walk_rvalue in H; cbn [walk_expr] in H.
+      minvn H i s4 E0. minvn E0 val0 s1 E1. change (walk_rvalue E env v s = (V val0, s1)) in E1.
+      pose proof (IHv Hf _ _ _ HR E1) as Tv.
+      minvn E0 t s2 E2. minvn E0 it s3 E3. unfold ret in E0. inversion E0; subst. cbn [to_rvalue] in H. unfold ret in H. inversion H; subst.
+      unfold process_type_annotation in E2. destruct (annotated_type E ty) as [t'|] eqn:Ea; [|discriminate E2]. unfold ret in E2. inversion E2; subst.
+      unfold visit_as in E3. cbv zeta in E3. rewrite ecs_tdesc' in E3.
+      pose proof (pick_type_cast_spec E t (ecsd (operand_tdesc val0))) as Hs.
+      destruct (pick_type_cast E t (ecsd (operand_tdesc val0))) eqn:Ep; cbn [negb] in Hs; try discriminate E3.
+      all: eapply TyAs; [exact Tv|exact Ea|symmetry; exact Hs|].
+      + unfold ret in E3. inversion E3; subst. rewrite ecs_tdesc'. apply noop_concrete with (E := E). exact Ep.
+      + eapply emit_result_desc. exact E3.
+      + eapply emit_result_desc. exact E3.
+      + eapply emit_result_desc. exact E3.
+    - (* ternary *)
+      intros c a b [IHc _] [IHa _] [IHb _]. split; [|exact I]. intros Hf s res s' HR H. cbn [frag] in Hf. unfold walk_rvalue in H; cbn [walk_expr] in H.
+      apply andb_prop in Hf. destruct Hf as [Hf Fb]. apply andb_prop in Hf. destruct Hf as [Fc Fa].
+      minvn H it s9 E0. minvn E0 cond s1 E1. minvn E0 cl s2 E2. minvn E0 conseq s3 E3. minvn E0 ql s4 E4.
+      minvn E0 alt s5 E5. minvn E0 al s6 E6. minvn E0 u1 s7 E7. minvn E0 r3 s8 E8.
+      unfold ret in E0. inversion E0; subst. cbn [to_rvalue] in H. unfold ret in H. inversion H; subst.
+      change (walk_rvalue E env c s = (V cond, s1)) in E1. change (walk_rvalue E env a s2 = (V conseq, s3)) in E3.
+      change (walk_rvalue E env b s4 = (V alt, s5)) in E5.
+      pose proof (IHc Fc _ _ _ HR E1) as Tc.
+      assert (HR2 : Rel s0 s2).
+      { eapply Rel_trans; [exact HR|]. eapply Rel_trans; [eapply Inv_rel; [apply Inv_walk_rvalue|exact E1]|eapply Inv_rel; [apply Inv_mark_branch_point|exact E2]]. }
+      pose proof (IHa Fa _ _ _ HR2 E3) as Ta.
+      assert (HR4 : Rel s0 s4).
+      { eapply Rel_trans; [exact HR2|]. eapply Rel_trans; [eapply Inv_rel; [apply Inv_walk_rvalue|exact E3]|eapply Inv_rel; [apply Inv_mark_branch_point|exact E4]]. }
+      pose proof (IHb Fb _ _ _ HR4 E5) as Tb.
+      destruct (check_cond_bool _ _ _ _ E7) as [Bc _]. rewrite Bc in Tc.
+      destruct (visit_ternary_sound _ _ _ _ _ _ _ _ _ _ E8) as [t [H1 H2]].
+      eapply TyTernary; eauto.
+  Qed.
+End Main.
+
 Theorem rvalue_typed E env s0 : envwf (List.length (bs_locals s0)) env ->
   forall e, frag E env e = true -> forall s a s', Rel s0 s -> walk_rvalue E env e s = (V a, s') ->
   Typed E (ctx_of env s0) e (operand_tdesc a).
-Proof.
-  intros Hw.
-  induction e as [x| |n|fb|str|bb| |es| |o IHo p|o IHo ix IHix|f IHf args|l IHl r IHr|op a IHa|op l IHl r IHr|v IHv ty|c IHc a IHa b IHb];
-    cbn [frag]; try discriminate; intros Hf s res s' HR H; unfold walk_rvalue in H; cbn [walk_expr] in H.
-  - (* identifier: a local variable, or an object of the document *)
-    unfold process_identifier in H. destruct (lenv_get env x) as [[l k]|] eqn:El.
-    + unfold mbind, ret in H. cbn [to_rvalue] in H. unfold visit_local_ref in H.
-      destruct (nth_error (bs_locals s) l) as [t|] eqn:En; [|discriminate]. inversion H; subst. cbn [operand_tdesc].
-      apply TyLocal. unfold ctx_of. rewrite El. rewrite <- En. symmetry. apply Rel_local; [exact HR|]. eapply Hw. exact El.
-    + unfold ctx_get_ref in H. destruct (assoc x (ce_objects E)) as [c|] eqn:Eo; [|discriminate Hf].
-      unfold of_ref, mbind, ret in H. cbn [to_rvalue] in H. unfold ret in H. inversion H; subst. cbn [operand_tdesc].
-      apply TyObject; [unfold ctx_of; rewrite El; reflexivity|exact Eo].
-  - (* this *)
-    destruct (ce_this E) as [[c n]|] eqn:Et; [|discriminate H]. unfold mbind, ret in H. cbn [to_rvalue] in H. unfold ret in H. inversion H; subst.
-    cbn [operand_tdesc]. eapply TyThis. exact Et.
-  - (* integer *)
-    unfold visit_integer, mbind, ret, fail in H. destruct (Z.of_N n <=? I64_MAX)%Z; cbn [to_rvalue] in H; [|discriminate].
-    unfold ret in H. inversion H; subst. constructor.
-  - unfold mbind, ret in H. cbn [to_rvalue] in H. unfold ret in H. inversion H; subst. constructor.
-  - unfold mbind, ret in H. cbn [to_rvalue] in H. unfold ret in H. inversion H; subst. constructor.
-  - unfold mbind, ret in H. cbn [to_rvalue] in H. unfold ret in H. inversion H; subst. constructor.
-  - unfold mbind, ret in H. cbn [to_rvalue] in H. unfold ret in H. inversion H; subst. constructor.
-  - (* member: o.p *)
-    minvn H i s2 E0. minvn E0 io s1 E1. pose proof (frag_shape E env o Hf _ _ _ E1) as Sh.
-    assert (Hobj : exists obj k st, to_rvalue io s1 = (V obj, st) /\ process_item_property E obj p k st = (V i, s2)).
-    { destruct io; try contradiction; try discriminate E0.
-      - exists a, KRvalue, s1. split; [reflexivity|exact E0].
-      - minvn E0 it st E2. exists it, KLvalue, st. split; [exact E2|exact E0].
-      - minvn E0 it st E2. exists it, KRvalue, st. split; [exact E2|exact E0].
-      - minvn E0 it st E2. exists it, KRvalue, st. split; [exact E2|exact E0]. }
-    destruct Hobj as (obj & k & st & Eobj & Ep).
-    assert (Eo : walk_rvalue E env o s = (V obj, st)) by (unfold walk_rvalue, mbind; rewrite E1; exact Eobj).
-    pose proof (IHo Hf _ _ _ HR Eo) as To.
-    unfold process_item_property in Ep. pose proof (to_concrete_concrete (operand_tdesc obj)) as Hc.
-    destruct (to_concrete_type (operand_tdesc obj)) as [ty|]; [|discriminate Ep].
-    destruct (class_of_type ty) as [cls|] eqn:Ec; [|discriminate Ep].
-    destruct (get_property E cls p) as [[dc pi]|] eqn:Eg.
-    + unfold ret in Ep. inversion Ep; subst. cbn [to_rvalue] in H. unfold visit_object_property in H. cbn [pr_info] in H.
-      destruct (pi_readable pi) eqn:Er; cbn [negb] in H; [|discriminate H].
-      eapply TyMember; eauto. eapply emit_result_desc. exact H.
-    + destruct (get_methods E cls p) as [[dc ms]|]; [|discriminate Ep]. unfold ret in Ep. inversion Ep; subst. discriminate H.
-  - (* subscript: o[ix] *)
-    apply andb_prop in Hf. destruct Hf as [Fo Fi].
-    minvn H i s4 E0. minvn E0 io s1 E1. pose proof (frag_shape E env o Fo _ _ _ E1) as Sh.
-    minvn E0 ok s2 E2. minvn E0 idx s3 E3. change (walk_rvalue E env ix s2 = (V idx, s3)) in E3.
-    assert (Hobj : to_rvalue io s1 = (V (fst ok), s2)).
-    { destruct io; try contradiction; try discriminate E2.
-      - unfold ret in E2. inversion E2; reflexivity.
-      - minvn E2 it st E4. unfold ret in E2. inversion E2; subst. exact E4.
-      - minvn E2 it st E4. unfold ret in E2. inversion E2; subst. exact E4.
-      - minvn E2 it st E4. unfold ret in E2. inversion E2; subst. exact E4. }
-    assert (Eo : walk_rvalue E env o s = (V (fst ok), s2)) by (unfold walk_rvalue, mbind; rewrite E1; exact Hobj).
-    pose proof (IHo Fo _ _ _ HR Eo) as To.
-    assert (HR2 : Rel s0 s2) by (eapply Rel_trans; [exact HR|eapply Inv_rel; [apply Inv_walk_rvalue|exact Eo]]).
-    pose proof (IHix Fi _ _ _ HR2 E3) as Ti.
-    unfold ret in E0. inversion E0; subst. cbn [to_rvalue] in H. unfold visit_object_subscript in H. minvn H elem s5 E5.
-    pose proof (subscript_check_spec (fst ok) idx s4) as Hs. unfold succeeds in Hs. rewrite E5 in Hs. cbn [fst] in Hs.
-    eapply TySubscript; [exact To|exact Ti|symmetry; exact Hs|]. eapply emit_result_desc. exact H.
-  - (* unary *)
-    minvn H it s2 E0. minvn E0 arg s1 E1. change (walk_rvalue E env a s = (V arg, s1)) in E1.
-    pose proof (IHa Hf _ _ _ HR E1) as Ta.
-    destruct (uop_of op) as [u|] eqn:Eu; [|discriminate E0].
-    minvn E0 r s3 E2. unfold ret in E0. inversion E0; subst. cbn [to_rvalue] in H. unfold ret in H. inversion H; subst.
-    destruct (visit_unary_sound _ _ _ _ _ E2) as [t [H1 H2]]. eapply TyUnary; eauto.
-  - (* binary *)
-    apply andb_prop in Hf. destruct Hf as [Fl Fr].
-    destruct (bop_of op) as [b|] eqn:Eb; [|discriminate H].
-    assert (Hnl : binop_class b <> KLogical ->
-                  mbind (mbind (walk_rvalue E env l) (fun lhs => mbind (walk_rvalue E env r) (fun rhs => mbind (visit_binary E b lhs rhs) (fun it => ret (IItem it))))) to_rvalue s = (V res, s') ->
-                  Typed E (ctx_of env s0) (EBinary op l r) (operand_tdesc res)).
-    { intros Hk H'. minvn H' it s4 E0. minvn E0 lhs s1 E1. minvn E0 rhs s2 E2. minvn E0 r3 s3 E3.
-      unfold ret in E0. inversion E0; subst. cbn [to_rvalue] in H'. unfold ret in H'. inversion H'; subst.
-      pose proof (IHl Fl _ _ _ HR E1) as Tl.
-      assert (HR1 : Rel s0 s1) by (eapply Rel_trans; [exact HR|eapply Inv_rel; [apply Inv_walk_rvalue|exact E1]]).
-      pose proof (IHr Fr _ _ _ HR1 E2) as Tr.
-      destruct (visit_binary_sound _ _ _ _ _ _ _ Hk E3) as [[t [H1 H2]]|[-> ->]].
-      - eapply TyBinary; eauto.
-      - eapply TyNullNull; eauto. }
-    destruct (binop_class b) eqn:Ek; try (apply Hnl; [discriminate|exact H]).
-    (* && || *)
-    minvn H it s9 E0. minvn E0 lhs s1 E1. minvn E0 ll s2 E2. minvn E0 rhs s3 E3. minvn E0 rl s4 E4.
-    minvn E0 u1 s5 E5. minvn E0 u2 s6 E6. minvn E0 r3 s7 E7.
-    unfold ret in E0. inversion E0; subst. cbn [to_rvalue] in H. unfold ret in H. inversion H; subst.
-    change (walk_rvalue E env l s = (V lhs, s1)) in E1. change (walk_rvalue E env r s2 = (V rhs, s3)) in E3.
-    pose proof (IHl Fl _ _ _ HR E1) as Tl.
-    assert (HR2 : Rel s0 s2).
-    { eapply Rel_trans; [exact HR|]. eapply Rel_trans; [eapply Inv_rel; [apply Inv_walk_rvalue|exact E1]|eapply Inv_rel; [apply Inv_mark_branch_point|exact E2]]. }
-    pose proof (IHr Fr _ _ _ HR2 E3) as Tr.
-    destruct (check_cond_bool _ _ _ _ E5) as [Bl _]. destruct (check_cond_bool _ _ _ _ E6) as [Br _].
-    rewrite Bl in Tl. rewrite Br in Tr.
-    destruct (visit_binary_logical_sound E _ _ _ _ _ _ _ _ E7) as [_ Hc].
-    assert (Hd : operand_tdesc res = DConcrete T_BOOL).
-    { destruct (operand_tdesc res) eqn:Ed; cbn in Hc; try discriminate. inversion Hc. reflexivity. }
-    rewrite Hd. eapply TyLogical; eauto.
-  - (* cast: v as T *)
-    minvn H i s4 E0. minvn E0 val0 s1 E1. change (walk_rvalue E env v s = (V val0, s1)) in E1.
-    pose proof (IHv Hf _ _ _ HR E1) as Tv.
-    minvn E0 t s2 E2. minvn E0 it s3 E3. unfold ret in E0. inversion E0; subst. cbn [to_rvalue] in H. unfold ret in H. inversion H; subst.
-    unfold process_type_annotation in E2. destruct (annotated_type E ty) as [t'|] eqn:Ea; [|discriminate E2]. unfold ret in E2. inversion E2; subst.
-    unfold visit_as in E3. cbv zeta in E3. rewrite ecs_tdesc' in E3.
-    pose proof (pick_type_cast_spec E t (ecsd (operand_tdesc val0))) as Hs.
-    destruct (pick_type_cast E t (ecsd (operand_tdesc val0))) eqn:Ep; cbn [negb] in Hs; try discriminate E3.
-    all: eapply TyAs; [exact Tv|exact Ea|symmetry; exact Hs|].
-    + unfold ret in E3. inversion E3; subst. rewrite ecs_tdesc'. apply noop_concrete with (E := E). exact Ep.
-    + eapply emit_result_desc. exact E3.
-    + eapply emit_result_desc. exact E3.
-    + eapply emit_result_desc. exact E3.
-  - (* ternary *)
-    apply andb_prop in Hf. destruct Hf as [Hf Fb]. apply andb_prop in Hf. destruct Hf as [Fc Fa].
-    minvn H it s9 E0. minvn E0 cond s1 E1. minvn E0 cl s2 E2. minvn E0 conseq s3 E3. minvn E0 ql s4 E4.
-    minvn E0 alt s5 E5. minvn E0 al s6 E6. minvn E0 u1 s7 E7. minvn E0 r3 s8 E8.
-    unfold ret in E0. inversion E0; subst. cbn [to_rvalue] in H. unfold ret in H. inversion H; subst.
-    change (walk_rvalue E env c s = (V cond, s1)) in E1. change (walk_rvalue E env a s2 = (V conseq, s3)) in E3.
-    change (walk_rvalue E env b s4 = (V alt, s5)) in E5.
-    pose proof (IHc Fc _ _ _ HR E1) as Tc.
-    assert (HR2 : Rel s0 s2).
-    { eapply Rel_trans; [exact HR|]. eapply Rel_trans; [eapply Inv_rel; [apply Inv_walk_rvalue|exact E1]|eapply Inv_rel; [apply Inv_mark_branch_point|exact E2]]. }
-    pose proof (IHa Fa _ _ _ HR2 E3) as Ta.
-    assert (HR4 : Rel s0 s4).
-    { eapply Rel_trans; [exact HR2|]. eapply Rel_trans; [eapply Inv_rel; [apply Inv_walk_rvalue|exact E3]|eapply Inv_rel; [apply Inv_mark_branch_point|exact E4]]. }
-    pose proof (IHb Fb _ _ _ HR4 E5) as Tb.
-    destruct (check_cond_bool _ _ _ _ E7) as [Bc _]. rewrite Bc in Tc.
-    destruct (visit_ternary_sound _ _ _ _ _ _ _ _ _ _ E8) as [t [H1 H2]].
-    eapply TyTernary; eauto.
-Qed.
+Proof. intros Hw e. exact (proj1 (typed_all E env s0 Hw e)). Qed.
 
 (* the statement for a translation that starts in the state the context is read from *)
 Corollary accepted_expression_is_typed E env s0 e a s' :
